@@ -106,7 +106,7 @@ def classify(record):
         if st != 0:
             if exceeds:
                 # a failed call left the destination with metadata it cannot hold
-                if op in UNARY_INTO_POLLUTERS or op == 2 or (used & tainted):
+                if d in tainted or op in UNARY_INTO_POLLUTERS or op == 2 or (used & tainted):
                     tainted.add(d)
                 else:
                     return None
